@@ -193,8 +193,8 @@ func c14(r *Report, s *Sem) {
 			if ifi == nil {
 				return false
 			}
-			call, _, isNil, ok := errTest(ifi, k == 0)
-			return ok && call == estCall && isNil
+			isNil, ok := errTestOf(ifi, k == 0, estCall)
+			return ok && isNil
 		}})
 	r.Check(R1, "func "+fnName(fn)+" / establishment error edge releases the connection", p.instrPos(estCall), len(errExits) == 0,
 		fmt.Sprintf("%d exit(s) on the err != nil edge of EstablishSession without a releasing call%s", len(errExits), firstExit(p, errExits)))
